@@ -83,8 +83,10 @@ def run(ctx):
             return (repr(v),)         # one accessor that returns the whole position
         return None
 
+    # the reader's own helpers (an extracted `iter_position()`, `Position::new`) are looked through
+    own = lambda a, b: b.crate == lexpr.name and b.file.endswith("parse/read.rs") and b.kind != "closure" and not b.impl_trait
     # position() without a pending byte
-    S = sim.Sim([lexpr], hooks={"call": mk_hook(None), "opaque": opaque_with(Adt(OPT, 0, []))})
+    S = sim.Sim([lexpr], hooks={"call": mk_hook(None), "opaque": opaque_with(Adt(OPT, 0, []))}, inline=own)
     rets = {fields(p.ret) or repr(p.ret) for p in S.run(pos) if p.end == "return"}
 
     def line_col_before(pair):
@@ -109,7 +111,7 @@ def run(ctx):
         r.violation(pos.path, "position-no-lookahead", "IoRead::position without a pending byte returns %s" % sorted(rets, key=repr), pos.loc())
         return
     # position() with a pending byte must come from saved state
-    S = sim.Sim([lexpr], hooks={"call": mk_hook(None), "opaque": opaque_with(pending)})
+    S = sim.Sim([lexpr], hooks={"call": mk_hook(None), "opaque": opaque_with(pending)}, inline=own)
     ps = [p for p in S.run(pos) if p.end == "return"]
     saved = set()
     computed = False
@@ -127,7 +129,7 @@ def run(ctx):
     field = saved.pop()
     r.ok("position() with a pending byte returns the saved field %r" % field, pos)
     # peek() must save (line, col) obtained before advancing the iterator into that field
-    S = sim.Sim([lexpr], hooks={"call": mk_hook(None), "opaque": opaque_with(Adt(OPT, 0, []))})
+    S = sim.Sim([lexpr], hooks={"call": mk_hook(None), "opaque": opaque_with(Adt(OPT, 0, []))}, inline=own)
     okp = False
     stores = []
     for p in S.run(peek):
